@@ -28,6 +28,11 @@ def gen_program(rng, depth, budget, prop):
             acts.append(["release", nkids - 1])
         elif r < (0.6 if prop == "C11" else 0.45):
             acts.append(["stop", nkids - 1] + ([rng.randint(0, 2)] if prop == "C11" and rng.random() < 0.5 else []))
+    # a thread created with parent_thread=Null: registered in ALL only (as the pipe threads of a Process are); nobody but
+    # MainThread.stop()'s final sweep of the registry stops and joins it
+    if rng.random() < (0.3 if prop == "C11" else 0.12):
+        leaf = ([["wait_stop"]] if rng.random() < 0.7 else []) + [["ret", rng.randrange(len(VALUES))]]
+        acts.insert(rng.randint(0, len(acts)), ["spawn_orphan", leaf])
     # afterwards: join / stop one of the earlier children while its siblings are still registered (a join that unregisters a
     # child can then race with a stop() walking this thread's children)
     if nkids >= 2 and rng.random() < (0.6 if prop == "C11" else 0.25):
@@ -96,6 +101,8 @@ def shape(sc):
         for a in p:
             if a[0] == "spawn":
                 s += "(" + f(a[1]) + ")"
+            elif a[0] == "spawn_orphan":
+                s += "{" + f(a[1]) + "}"
             else:
                 s += {"join": "j", "release": "r", "stop": "s", "wait_stop": "w", "raise": "!", "ret": ".", "join_all": "J", "main_stop": "M"}[a[0]]
         return s
@@ -197,8 +204,16 @@ class TracedAll(dict):
         dict.__delitem__(self, k)
         s = ds.CUR
         n = _node_of(v) if v is not None else None
-        if s is not None and s.me() is not None and n is not None:
-            s.emit("m5", "all-", n)
+        if s is not None and s.me() is not None and n is not None and n != 0:
+            s.emit("m5", "all-", n)     # (the main thread's own removal is one step with the snapshot below)
+
+    def values(self):
+        vs = list(dict.values(self))
+        s = ds.CUR
+        f = sys._getframe(1)
+        if s is not None and s.me() is not None and f.f_code.co_name == "stop" and f.f_code.co_filename.endswith("threads.py"):
+            s.emit("m5", "snapall", [x for x in (_node_of(v) for v in vs) if x is not None and x != 0])
+        return vs
 
 
 def run_scenario(sc, chooser=None, seed=0, max_steps=30000):
@@ -274,6 +289,17 @@ def run_scenario(sc, chooser=None, seed=0, max_steps=30000):
         sched.note("ret", parent_nid, "spawn", "done")
         return (nid, th)
 
+    def spawn_orphan(prog, creator_nid):
+        from mo_dots import Null
+        nid = st["next"]
+        st["next"] += 1
+        sched.note("call", creator_nid, "spawn_orphan")
+        st.setdefault("orphans", []).append(nid)
+        th = threads.Thread.run("n%d" % nid, make_target(nid, prog), parent_thread=Null)
+        st["nodes"][nid] = th
+        sched.note("ret", creator_nid, "spawn", "done")
+        return (nid, th)
+
     def do_join(caller, kid, a):
         nid, th = kid
         till_sig = None
@@ -326,6 +352,8 @@ def run_scenario(sc, chooser=None, seed=0, max_steps=30000):
     def run_action(nid, a, kids, please_stop):
         if a[0] == "spawn":
             kids.append(spawn(a[1], nid))
+        elif a[0] == "spawn_orphan":
+            spawn_orphan(a[1], nid)
         elif a[0] == "join":
             do_join(nid, kids[a[1]], a)
         elif a[0] == "release":
@@ -380,11 +408,18 @@ def run_scenario(sc, chooser=None, seed=0, max_steps=30000):
             except BaseException as e:   # noqa
                 st["main_stop"] = e
                 sched.note("ret", 0, "main_stop", "allraised")
-            residue = [t.name for t in threads.ALL.values()]
+            # what MainThread.stop() answers for: the threads that descend from the main thread, and whatever was in the
+            # registry when the sweep took its snapshot (an orphan that had been created but was not running yet is in neither)
+            swept = set()
+            for ev in sched.events:
+                if len(ev) > 3 and ev[1] == "m5" and ev[2] == "snapall":
+                    swept = set(ev[3])
+            covered = set(subtree(0)) | swept
+            residue = [t.name for t in threads.ALL.values() if _node_of(t) in covered or _node_of(t) is None]
             if residue:
                 st["viol"].append("C11: threads %s are still registered after MainThread.stop()" % residue)
             for nid2, th in st["nodes"].items():
-                if not ds.raw(th.stopped, "_go"):
+                if nid2 in covered and not ds.raw(th.stopped, "_go"):
                     st["viol"].append("C11: thread n%d has not stopped after MainThread.stop() returned" % nid2)
             failed = [i for i, oc in st["outcome"].items() if oc[0] == "fail"]
             if failed and st["main_stop"] == "ok" and any(i in st["kids"].get(0, []) and not _was_joined(st, i) for i in failed):
@@ -503,6 +538,8 @@ def to_lines(events):
                 if k == "all+" and ev[3] == 0:
                     continue       # start_main_thread registers the main thread: the model starts from there
                 lines.append("step %s %s %d" % (t, k, ev[3]))
+            elif k == "snapall":
+                lines.append("step %s snapall %s" % (t, lst(ev[3])))
             elif k == "waited":
                 lines.append("step %s waited %d %s" % (t, ev[3], "True" if ev[4] else "False"))
         elif kind == "W" and ev[3] == "_go":
